@@ -244,7 +244,7 @@ ADAPTORS = {
     "mass_window": lambda: {"id": "ad.mass", "type": "MassMatrixAdaptor", "parameters": ["y"],
                             "mass_matrix": "mm", "update_frequency": 2, "variance_window": 1},
     "mass_swap": lambda: {"id": "ad.mass", "type": "MassMatrixAdaptor", "parameters": ["y"],
-                          "mass_matrix": "mm", "update_frequency": 2, "swap_every": 7},
+                          "mass_matrix": "mm", "update_frequency": 2, "swap_every": 5},
 }
 
 
@@ -263,7 +263,13 @@ def mcmc_ops(case):
         elif k == "dirichlet":
             d = {"id": "op.dir", "type": "DirichletOperator", "parameters": ["p"], "weight": 1.0, "scaler": 50.0}
         elif k == "hmc":
-            d = _hmc(case, [ADAPTORS[a]() for a in o.get("adaptors", [])], o.get("mass", "diag"),
+            ads = []
+            for a in o.get("adaptors", []):
+                ad = ADAPTORS[a]()
+                if "swap_every" in ad:
+                    ad["swap_every"] = o.get("swap_every", ad["swap_every"])
+                ads.append(ad)
+            d = _hmc(case, ads, o.get("mass", "diag"),
                      **({"find_reasonable_step_size": True} if o.get("frss") else {}))
         else:
             raise ValueError(k)
@@ -307,8 +313,7 @@ def tree_config(case, ck, log, iters, freq):
     m = [o for o in j if isinstance(o, dict) and o.get("id") == "mcmc"][0]
     m.update(iterations=iters, checkpoint=ck, checkpoint_frequency=freq, every=0)
     for op in m["operators"]:
-        if op["type"].startswith("GMRF"):
-            op["weight"] = 6.0
+        op["weight"] = 1.0
     m["loggers"] = [{"id": "lg", "type": "Logger",
                      "parameters": ["tree.ratios.unres", "tree.root_height.unres", "coalescent.theta.log",
                                     "gmrf.precision.unres"],
@@ -376,12 +381,19 @@ def run_case(case):
     try:
         try:
             run_main([cfgA] + args)
-        except Exception as e:          # a failure of the plain run is not a checkpoint matter
+        except Exception as e:
             obs["plain_run_error"] = f"{type(e).__name__}: {e}"
             obs["trace"] = traceback.format_exc()[-1500:]
-            return obs
     finally:
         h.remove()
+    if "plain_run_error" in obs:
+        # an exception after the last iteration was logged (e.g. the closing statistics of MCMC.run
+        # divide by zero for an operator that was never drawn) does not concern checkpointing
+        done = h.saved and (is_opt or (os.path.exists(os.path.join(d, "A", "log.tsv"))
+                                       and read_log(os.path.join(d, "A", "log.tsv"))[-1][0] == N + K))
+        if not done:
+            return obs
+        obs["plain_run_tail_error"] = obs.pop("plain_run_error")
     if not h.saved:
         obs["plain_run_error"] = "no checkpoint written at N"
         return obs
@@ -421,3 +433,365 @@ def run_case(case):
     else:
         obs["C_traj"] = []
     return obs
+
+
+# --------------------------------------------------------------------------- case lists
+
+OPTIMISERS = [
+    ("Adam", "torch.optim.Adam", {}),
+    ("Adam-amsgrad", "torch.optim.Adam", {"amsgrad": True}),
+    ("AdamW", "torch.optim.AdamW", {"weight_decay": 0.01}),
+    ("SGD", "torch.optim.SGD", {}),
+    ("SGD-momentum", "torch.optim.SGD", {"momentum": 0.9, "nesterov": True}),
+    ("Adagrad", "torch.optim.Adagrad", {}),
+    ("RMSprop", "torch.optim.RMSprop", {"momentum": 0.5, "centered": True}),
+    ("Adadelta", "torch.optim.Adadelta", {}),
+    ("Adamax", "torch.optim.Adamax", {}),
+    ("NAdam", "torch.optim.NAdam", {}),
+    ("RAdam", "torch.optim.RAdam", {}),
+    ("ASGD", "torch.optim.ASGD", {}),
+    ("Rprop", "torch.optim.Rprop", {}),
+    ("Adafactor", "torch.optim.Adafactor", {}),
+    ("LBFGS", "torch.optim.LBFGS", {"max_iter": 2, "history_size": 3}),
+]
+# not driven: SparseAdam (needs sparse gradients, torchtree has none), Muon (2-D parameters only)
+
+_S = "torch.optim.lr_scheduler."
+
+
+def schedulers(N, K):
+    return [
+        ("StepLR", {"scheduler": _S + "StepLR", "step_size": 2, "gamma": 0.7}),
+        ("MultiStepLR", {"scheduler": _S + "MultiStepLR", "milestones": [2, N + 2], "gamma": 0.5}),
+        ("ExponentialLR", {"scheduler": _S + "ExponentialLR", "gamma": 0.9}),
+        ("CosineAnnealingLR", {"scheduler": _S + "CosineAnnealingLR", "T_max": N + K + 3}),
+        ("LinearLR", {"scheduler": _S + "LinearLR", "total_iters": N + 2}),
+        ("ConstantLR", {"scheduler": _S + "ConstantLR", "total_iters": N + 2, "factor": 0.5}),
+        ("PolynomialLR", {"scheduler": _S + "PolynomialLR", "total_iters": N + K + 3, "power": 2.0}),
+        ("OneCycleLR", {"scheduler": _S + "OneCycleLR", "max_lr": 0.2, "total_steps": N + K + 6}),
+        ("CyclicLR", {"scheduler": _S + "CyclicLR", "base_lr": 0.01, "max_lr": 0.2, "step_size_up": 3,
+                      "cycle_momentum": False}),
+        ("CosineAnnealingWarmRestarts", {"scheduler": _S + "CosineAnnealingWarmRestarts", "T_0": 3}),
+        ("LambdaLR", {"scheduler": _S + "LambdaLR", "lr_lambda": "lambda epoch: 0.9 ** epoch"}),
+        ("MultiplicativeLR", {"scheduler": _S + "MultiplicativeLR", "lr_lambda": "lambda epoch: 0.95"}),
+    ]
+# not driven: ReduceLROnPlateau (step() needs a metric, Optimizer._run passes none), SequentialLR /
+# ChainedScheduler (take scheduler objects, not expressible in the JSON specification)
+
+
+def make_cases(tier, seed):
+    rng = random.Random(seed)
+    cases = []
+
+    def add(c):
+        c.setdefault("dtype", "float64")
+        c["seed"] = rng.randrange(1, 10 ** 6)
+        c["pseed"] = rng.randrange(1, 10 ** 6)
+        c["name"] = c["family"] + "-" + c["dtype"]
+        cases.append(c)
+
+    N = rng.choice([4, 5, 6])
+    K = rng.choice([4, 5])
+    sch = schedulers(N, K)
+    for i, (nm, alg, opts) in enumerate(OPTIMISERS):
+        lr = 1.0 if nm in ("LBFGS", "Adadelta") else 0.05
+        add(dict(algo="optimizer", family=f"opt:{nm}", algorithm=alg, options=opts, lr=lr, N=N, K=K))
+        if nm == "LBFGS":
+            continue
+        # every optimiser meets one scheduler (rotating), every scheduler meets Adam and SGD-momentum
+        snm, sc = sch[(i + seed) % len(sch)]
+        if tier == "thorough" or i % 2 == 0:
+            add(dict(algo="optimizer", family=f"opt:{nm}+{snm}", algorithm=alg, options=opts, lr=lr, N=N, K=K,
+                     scheduler=sc))
+    for snm, sc in sch:
+        add(dict(algo="optimizer", family=f"opt:Adam+{snm}", algorithm="torch.optim.Adam", options={}, lr=0.05,
+                 N=N, K=K, scheduler=sc))
+        if tier == "thorough":
+            add(dict(algo="optimizer", family=f"opt:SGD-momentum+{snm}", algorithm="torch.optim.SGD",
+                     options={"momentum": 0.9}, lr=0.05, N=N, K=K, scheduler=sc))
+    add(dict(algo="optimizer", family="opt:Adam[param_groups]", algorithm="torch.optim.Adam", options={}, lr=0.05,
+             N=N, K=K, groups=True, scheduler=sch[0][1]))
+    add(dict(algo="optimizer", family="opt:Adam[explicit-float32-parameter]", algorithm="torch.optim.Adam",
+             options={}, lr=0.05, N=N, K=K, explicit32=True))
+    f32 = ["Adam", "SGD-momentum", "LBFGS", "RMSprop"] if tier == "quick" else [o[0] for o in OPTIMISERS]
+    for nm, alg, opts in OPTIMISERS:
+        if nm in f32:
+            lr = 1.0 if nm in ("LBFGS", "Adadelta") else 0.05
+            add(dict(algo="optimizer", family=f"opt:{nm}", algorithm=alg, options=opts, lr=lr, N=N, K=K,
+                     dtype="float32", scheduler=None if nm == "LBFGS" else sch[2][1]))
+
+    Nm = rng.choice([10, 12, 14])
+    Km = rng.choice([6, 8])
+    H = lambda *ad, **kw: dict(kind="hmc", adaptors=list(ad), **kw)
+    mc = [
+        ("scaler", [dict(kind="scaler", acceptance_window_length=5)]),
+        ("slide", [dict(kind="slide")]),
+        ("dirichlet", [dict(kind="dirichlet", acceptance_window_length=4)]),
+        ("scaler+slide+dirichlet", [dict(kind="scaler"), dict(kind="slide_xy"), dict(kind="dirichlet")]),
+        ("scaler[no-adaptation]", [dict(kind="scaler", disable_adaptation=True)]),
+        ("hmc", [H()]),
+        ("hmc[find_reasonable_step_size]", [H(frss=True)]),
+        ("hmc[AdaptiveStepSize]", [H("adaptive")]),
+        ("hmc[AdaptiveStepSize(use_acceptance_rate)]", [H("adaptive_rate")]),
+        ("hmc[DualAveragingStepSize]", [H("dual")]),
+        ("hmc[MassMatrixAdaptor]", [H("mass")]),
+        ("hmc[MassMatrixAdaptor,dense]", [H("mass", mass="dense")]),
+        # the second estimator must hold samples at the checkpoint: N not a multiple of swap_every
+        ("hmc[MassMatrixAdaptor(swap_every)]",
+         [H("mass_swap", swap_every=next(s for s in (5, 4, 6, 7) if Nm % s >= 2))]),
+        ("hmc[AdaptiveStepSize+MassMatrixAdaptor]", [H("adaptive", "mass")]),
+        ("hmc[DualAveragingStepSize+MassMatrixAdaptor]", [H("dual", "mass")]),
+        ("hmc[AdaptiveStepSize]+scaler", [H("adaptive"), dict(kind="scaler")]),
+    ]
+    for nm, ops in mc:
+        add(dict(algo="mcmc", family=f"mcmc:{nm}", operators=ops, N=Nm, K=Km + (6 if "swap" in nm else 0)))
+    # the sliding variance window only starts dropping samples after 100 of them
+    add(dict(algo="mcmc", family="mcmc:hmc[MassMatrixAdaptor(variance_window)]", operators=[H("mass_window")],
+             N=104 + rng.choice([0, 1, 2]), K=Km))
+    add(dict(algo="mcmc", family="mcmc:skygrid[GMRFBlockUpdating+slide]", tree=True, operators=[],
+             N=rng.choice([24, 30]), K=10))
+    for nm, ops in mc:
+        if tier == "thorough" or nm in ("scaler+slide+dirichlet", "hmc[AdaptiveStepSize+MassMatrixAdaptor]",
+                                       "hmc[DualAveragingStepSize]"):
+            add(dict(algo="mcmc", family=f"mcmc:{nm}", operators=ops, N=Nm, K=Km, dtype="float32"))
+    return cases
+
+
+# --------------------------------------------------------------------------- the property on observations
+
+def id_types(cfg, out=None):
+    out = {} if out is None else out
+    if isinstance(cfg, dict):
+        if isinstance(cfg.get("id"), str) and isinstance(cfg.get("type"), str):
+            out[cfg["id"]] = cfg["type"].split(".")[-1]
+        for v in cfg.values():
+            id_types(v, out)
+    elif isinstance(cfg, list):
+        for v in cfg:
+            id_types(v, out)
+    return out
+
+
+def _item_id(c):
+    if c.get("$") == "dict":
+        for k, v in c["items"]:
+            if k == ["str", "id"] and v.get("$") == "str":
+                return v["v"]
+    return None
+
+
+def diff_state(a, b, path, types, out):
+    """Differences between two canon() pictures.  out: list of (kind, path, detail)."""
+    ka, kb = a.get("$"), b.get("$")
+    if {ka, kb} == {"tuple", "list"}:
+        out.append(("tuple-to-list", path, ""))
+        ka = kb = "list"
+    if ka != kb:
+        out.append(("kind", path, f"{ka} -> {kb}"))
+        return
+    if ka == "dict":
+        da = {tuple(k): v for k, v in a["items"]}
+        db = {tuple(k): v for k, v in b["items"]}
+        for k, v in da.items():
+            if k in db:
+                diff_state(v, db[k], f"{path}.{k[1]}" if path else str(k[1]), types, out)
+            elif k[0] == "int" and ("str", str(k[1])) in db:
+                out.append(("int-key-to-str", path, f"key {k[1]!r} came back as {str(k[1])!r}"))
+                diff_state(v, db[("str", str(k[1]))], f"{path}[*]", types, out)
+            else:
+                out.append(("missing", f"{path}.{k[1]}" if path else str(k[1]), "key absent after restart"))
+        for k in db:
+            if k not in da and not (k[0] == "str" and ("int", _int(k[1])) in da):
+                out.append(("extra", f"{path}.{k[1]}" if path else str(k[1]), "key only present after restart"))
+    elif ka == "list":
+        if len(a["items"]) != len(b["items"]):
+            out.append(("length", path, f"{len(a['items'])} -> {len(b['items'])}"))
+            return
+        for x, y in zip(a["items"], b["items"]):
+            i = _item_id(x)
+            comp = f"[{types.get(i, i)}]" if i is not None else "[*]"
+            diff_state(x, y, path + comp, types, out)
+    elif ka in ("tensor", "param"):
+        for f in ("dtype", "nn", "shape", "id"):
+            if a.get(f) != b.get(f):
+                out.append((f, path, f"{a.get(f)} -> {b.get(f)}"))
+        if a["v"] != b["v"] and a["shape"] == b["shape"]:
+            out.append(("value", path, f"{_show(a['v'])} -> {_show(b['v'])}"))
+    elif a != b:
+        out.append(("value", path, f"{_show(a.get('v'))} -> {_show(b.get('v'))}"))
+
+
+def _int(s):
+    try:
+        return int(s)
+    except ValueError:
+        return None
+
+
+def _show(v):
+    def one(x):
+        if isinstance(x, str):
+            try:
+                return repr(float.fromhex(x))
+            except ValueError:
+                return x
+        return repr(x)
+    if isinstance(v, list):
+        return "[" + ", ".join(one(x) for x in v[:4]) + (", ..." if len(v) > 4 else "") + "]"
+    return one(v)
+
+
+def _close(a, b, dtype):
+    """two rows of hex floats (or of mixed values) agree"""
+    if len(a) != len(b):
+        return False
+    tol = 1e-12 if dtype == "float64" else 1e-6
+    for x, y in zip(a, b):
+        if x == y:
+            continue
+        try:
+            fx, fy = float.fromhex(x), float.fromhex(y)
+        except (ValueError, TypeError):
+            return False
+        if math.isnan(fx) and math.isnan(fy):
+            continue
+        if not abs(fx - fy) <= tol * max(1.0, abs(fx), abs(fy)):
+            return False
+    return True
+
+
+def _rows(traj):
+    """trajectory entry -> comparable flat row"""
+    out = []
+    for lab, r in traj:
+        if isinstance(r, dict):
+            flat = []
+            for pid in sorted(r):
+                flat += r[pid][:-1]
+            out.append((lab, flat))
+        else:
+            out.append((lab, r))
+    return out
+
+
+def loop_name(case):
+    if case["algo"] == "mcmc":
+        return "MCMC.run"
+    return "Optimizer._run_closure" if case["algorithm"].endswith("LBFGS") else "Optimizer._run"
+
+
+def evaluate(case, obs):
+    """-> (violations [(key, what, replay)], notes dict)"""
+    fam = case["family"]
+    rp = dict(case=case)
+    v, notes = [], dict(benign_tuple_to_list=0)
+    if "plain_run_error" in obs:
+        v.append((f"C17:cannot-run:{fam}", f"the uninterrupted run of {case['name']} fails: {obs['plain_run_error']}", rp))
+        return v, notes
+    N, K = case["N"], case["K"]
+    types = id_types(config_for(case, "ck", "log", N + K, 1))
+    explained = []
+    err = obs.get("restart_error")
+    if err and err["before_run"]:
+        key = f"C17:restart-raises:{err['site']}:{err['type']}:{err['msg'][:40]}"
+        v.append((key, f"restarting {case['name']} from its own checkpoint raises {err['type']}({err['msg']}) in "
+                       f"{err['site']}", rp))
+        return v, notes
+    saved, rest = obs["saved"], obs["restored"]
+    # ---- state_dict() before saving vs after restart (iteration counter: judged on behaviour below)
+    diffs = []
+    diff_state(saved["state"], rest["state"], "", types, diffs)
+    for kind, path, detail in diffs:
+        if path == "iteration" or path.startswith("iteration"):
+            continue
+        if kind == "tuple-to-list":
+            notes["benign_tuple_to_list"] += 1
+            continue
+        if kind == "int-key-to-str":
+            key = f"C17:int-keys-become-strings:{saved['cls']}:{path}"
+            what = (f"{case['name']}: after the restart {saved['cls']}.state_dict()['{path}'] is keyed by strings "
+                    f"({detail}); the entries no longer belong to their parameters")
+        else:
+            key = f"C17:state-not-restored:{saved['cls']}:{path}:{kind}"
+            what = f"{case['name']}: {saved['cls']}.state_dict() differs after the restart at {path} ({kind}): {detail}"
+        explained.append(key)
+        v.append((key, what, rp))
+    # ---- parameter tensors
+    pa = {p["id"]: p for p in saved["params"]}
+    pb = {p["id"]: p for p in rest["params"]}
+    for pid in pa:
+        if pid not in pb:
+            v.append((f"C17:parameter-not-restored:{saved['cls']}:missing", f"{case['name']}: parameter {pid} missing", rp))
+            continue
+        d = []
+        diff_state(pa[pid], pb[pid], pid, {}, d)
+        for kind, path, detail in d:
+            key = f"C17:parameter-not-restored:{fam}:{kind}:{_spec_kind(case, pid)}"
+            explained.append(key)
+            v.append((key, f"{case['name']}: parameter {pid} differs after the restart ({kind}): {detail}", rp))
+    # ---- the run continued from the checkpoint
+    A = dict(_rows(obs["A_traj"]))
+    Cr = [r for r in _rows(obs["C_traj"]) if r[0] > 0]
+    want = [A[N + 1 + i] for i in range(K)]
+    labels = [r[0] for r in Cr]
+    depart = None
+    for i, (lab, row) in enumerate(Cr):
+        ref = A.get(N + 1 + i)
+        if ref is None:
+            break
+        if not _close(row, ref, case["dtype"]):
+            depart = i
+            break
+    loop = loop_name(case)
+    if err and not err.get("before_run") and labels[-1:] != [N + K]:
+        key = f"C17:resumed-run-raises:{err['site']}:{err['type']}"
+        if explained:
+            notes["consequence"] = f"the resumed run then raises {err['type']}({err['msg']})"
+        else:
+            v.append((key, f"{case['name']}: the resumed run raises {err['type']}({err['msg']}) in {err['site']} "
+                           f"after {len(labels)} iterations", rp))
+            explained.append(key)
+    if depart is not None:
+        msg = (f"{case['name']}: state number {depart + 1} after the restart is {_show(Cr[depart][1])} but the "
+               f"uninterrupted run visits {_show(A[N + 1 + depart])} at iteration {N + 1 + depart}")
+        if explained:
+            notes["consequence"] = msg
+        else:
+            v.append((f"C17:resumed-trajectory-differs:{fam}", msg, rp))
+    if not (err and not err.get("before_run")):
+        if labels == list(range(N, N + K + 1)):
+            v.append((f"C17:resume-repeats-iteration:{loop}",
+                      f"{case['name']}: the checkpoint written at the end of iteration {N} stores iteration={N} and "
+                      f"{loop} restarts AT {N}: the resumed run executes {K + 1} iterations ({N}..{N + K}) where the "
+                      f"uninterrupted run executes {K}" + ("" if depart is not None else
+                      f"; its states are those of iterations {N + 1}..{N + K + 1}"), rp))
+        elif labels != list(range(N + 1, N + K + 1)):
+            v.append((f"C17:resume-iteration-labels:{loop}",
+                      f"{case['name']}: resumed run executes iterations {labels[:3]}..{labels[-1:]}, expected "
+                      f"{N + 1}..{N + K}", rp))
+    notes["explained_by"] = explained
+    notes["depart"] = depart
+    return v, notes
+
+
+def _spec_kind(case, pid):
+    cfg = config_for(case, "ck", "log", 1, 1)
+
+    def find(o):
+        if isinstance(o, dict):
+            if o.get("id") == pid and o.get("type", "").endswith("Parameter"):
+                return o
+            for x in o.values():
+                r = find(x)
+                if r:
+                    return r
+        elif isinstance(o, list):
+            for x in o:
+                r = find(x)
+                if r:
+                    return r
+        return None
+    spec = find(cfg) or {}
+    ks = [k for k in ("full_like", "full", "zeros_like", "zeros", "ones_like", "ones", "eye_like", "eye", "arange")
+          if k in spec]
+    return (ks[0] if ks else "tensor") + ("+dtype" if "dtype" in spec else "")
